@@ -27,7 +27,7 @@ func init() {
 			"Non-trivial: the sequence has >= 2 nodes; distinct by (expression text, document, context).",
 		Assume:        []string{"reference evaluator internal/xref for the flat-path order; the protocol relations are engine-vs-engine"},
 		MinNontrivial: tierN(8000, 100000),
-		Required:      []string{"relation:count", "relation:reverse", "relation:evaluate", "relation:extra_movenext"},
+		Required:      []string{"relation:count", "relation:reverse", "relation:evaluate", "relation:extra_movenext", "relation:drained_iterator_after_second_select"},
 		Families: []Family{
 			witnessFamily("C12"),
 			{Name: "flat", N: tierN(150000, 6000000), Run: c12Flat},
